@@ -89,34 +89,36 @@ def classesClauses (i : Inst) (elms : List Nat) (css : List (List Nat)) : List (
       allPairs (fun c d => c.all (fun x => d.all (fun y => !(conn i.lab x y)))) css),
    ("first-occurrence-order", css == groupFO (conn i.lab) elms)]
 
-def setI (st : Nat → Inst) (k : Nat) (i : Inst) : Nat → Inst := fun j => if j = k then i else st j
+/-- instance store of the Spec: association list, latest binding first; a slot never
+    written is the discrete partition of the universe `0..n-1` -/
+def getI (n : Nat) : List (Nat × Inst) → Nat → Inst
+  | [], _ => ⟨List.range n, []⟩
+  | (j, i) :: r, k => if j = k then i else getI n r k
 
 /-- state update of the Spec (no judgement) -/
-def advance (st : Nat → Inst) : Ev → (Nat → Inst)
+def advance (n : Nat) (st : List (Nat × Inst)) : Ev → List (Nat × Inst)
   | .unite k a b =>
-    let i := st k
+    let i := getI n st k
     let lab' := relabel i.lab a b
-    setI st k ⟨lab', i.seen.filter (fun p => !(conn lab' p.1 a))⟩
+    (k, ⟨lab', i.seen.filter (fun p => !(conn lab' p.1 a))⟩) :: st
   | .find k a r =>
-    let i := st k
-    setI st k ⟨i.lab, if i.seen.any (fun p => p.1 == a && p.2 == r) then i.seen else (a, r) :: i.seen⟩
+    let i := getI n st k
+    (k, ⟨i.lab, if i.seen.any (fun p => p.1 == a && p.2 == r) then i.seen else (a, r) :: i.seen⟩) :: st
   | .classes _ _ _ => st
-  | .clone i j => setI st j ⟨(st i).lab, []⟩
+  | .clone i j => (j, ⟨(getI n st i).lab, []⟩) :: st
 
-def clausesOf (st : Nat → Inst) : Ev → List (String × Bool)
-  | .find k a r => findClauses (st k) a r
-  | .classes k elms css => classesClauses (st k) elms css
+def clausesOf (n : Nat) (st : List (Nat × Inst)) : Ev → List (String × Bool)
+  | .find k a r => findClauses (getI n st k) a r
+  | .classes k elms css => classesClauses (getI n st k) elms css
   | _ => []
 
-def initStore (n : Nat) : Nat → Inst := fun _ => ⟨List.range n, []⟩
-
 /-- first failing clause of a trace, `none` = the property holds on this trace -/
-def checkFrom (st : Nat → Inst) : List Ev → Option String
+def checkFrom (n : Nat) (st : List (Nat × Inst)) : List Ev → Option String
   | [] => none
   | e :: es =>
-    match (clausesOf st e).find? (fun c => !c.2) with
+    match (clausesOf n st e).find? (fun c => !c.2) with
     | some c => some c.1
-    | none => checkFrom (advance st e) es
+    | none => checkFrom n (advance n st e) es
 
 /-- universe size of a trace: 1 + largest element mentioned (answers included) -/
 def evMax : Ev → Nat
@@ -127,6 +129,6 @@ def evMax : Ev → Nat
 
 def universeOf (es : List Ev) : Nat := (es.map evMax).foldl max 0 + 1
 
-def check (es : List Ev) : Option String := checkFrom (initStore (universeOf es)) es
+def check (es : List Ev) : Option String := checkFrom (universeOf es) [] es
 
 end DSymVerif.SpecC20
